@@ -126,11 +126,15 @@ def format_line(line: str, fmt: int, i: int, section: str = "") -> str:
     rp = _RP[(h >> 11) % len(_RP)]
     if " = A " in line:
         rp = ""
+    if (h >> 17) % 5 == 0 and line[:1].isdigit():
+        line = "0" * (1 + (h >> 20) % 3) + line      # zero-prefixed tick: same integer
     return lp + line + rp
 
 
-def render(spec, newline: str = "\n", indent: str = "  ") -> str:
+def render(spec, newline: str | None = None, indent: str = "  ") -> str:
     fmt = spec.get("fmt", 0)
+    if newline is None:
+        newline = spec.get("nl", "\n")
     if not fmt:
         return render_sections(sections_of(spec), newline=newline, indent=indent)
     out: list[str] = []
